@@ -77,7 +77,7 @@ def dynamic_pressure(env, **cfg):
         f1 = g.get(v1, "ap.aero_states.%s_sec_forces" % n)
         f2 = g.get(v2, "ap.aero_states.%s_sec_forces" % n)
         env.eq("C06", "sectional forces scale with rho * v^2 [%s]" % n, f2, (a * b * b) * f1)
-        for q in ("CL", "CD"):
+        for q in ("CL", "CD", "Cl", "CDi", "CL1"):
             if cfg.get("viscous") and q == "CD":
                 continue
             env.eq("C06", "surface %s unchanged under (rho, v) scaling [%s]" % (q, n), g.get(v2, "ap.%s_perf.%s" % (n, q)), g.get(v1, "ap.%s_perf.%s" % (n, q)))
@@ -99,6 +99,30 @@ def _dynamic_pressure_native(env, g, surfs):
                (a * b * b) * g.get(v1, "ap.aero_states.%s_sec_forces" % n))
     for q in ("CL", "CM"):
         env.eq("C06", "aircraft %s unchanged under (rho, v) scaling" % q, g.get(v2, "ap." + q), g.get(v1, "ap." + q))
+    for s in surfs:
+        n = s["name"]
+        env.eq("C06", "surface Cl unchanged under (rho, v) scaling [%s]" % n, g.get(v2, "ap.%s_perf.Cl" % n), g.get(v1, "ap.%s_perf.Cl" % n))
+
+
+@job("c06.viscous_length_scaling", ("C06",), cfgs=[dict(k_lam=0.05, symmetry=True), dict(k_lam=0.0, symmetry=False), dict(k_lam=1.0, symmetry=True)],
+     ranges=RG + [(r"^(P\.)?re", 1e5, 1e6), (r"Mach", 0.2, 0.8), (r"t_over_c", 0.05, 0.2), (r"cos_sweep", 0.7, 1.0), (r"^k$", 0.4, 3.0)], cost=5)
+def viscous_length_scaling(env, k_lam, symmetry):
+    """the viscous drag coefficient depends on lengths only through the chord Reynolds number: lengths and widths times k,
+    reference area times k^2, Reynolds number per length divided by k leave it unchanged - on every laminar/turbulent
+    branch (laminar fraction 0, in between, 1)"""
+    from ..surfaces import surface
+    s = surface(name="wing", nx=2, ny=3, symmetry=symmetry, with_viscous=True, extra=dict(k_lam=k_lam))
+    h = env.comp("v", lambda: cls("aerodynamics.viscous_drag.ViscousDrag")(surface=s, with_viscous=True))
+    ins = h.inputs()
+    k = env.var("k", ())
+    ins2 = dict(ins)
+    ins2["re"] = ins["re"] / k
+    ins2["lengths"] = ins["lengths"] * k
+    ins2["widths"] = ins["widths"] * k
+    ins2["lengths_spanwise"] = ins["lengths_spanwise"] * k
+    ins2["S_ref"] = ins["S_ref"] * k * k
+    env.eq("C06", "CDv unchanged when every length is scaled by k and the Reynolds number per length by 1/k [k_lam = %s]" % k_lam,
+           h.compute(ins2)["CDv"], h.compute(ins)["CDv"])
 
 
 @job("c06.translation", ("C06",), cfgs=[dict(CF[0], rotational=False), dict(CF[0], rotational=True), dict(CF[2], rotational=True),
